@@ -16,6 +16,9 @@ time, P1 time, a source id - lies in the head or only beyond that prefix); there
 point: a system-timestamped type with source_ids / relative and absolute time ranges, compared with the same read later on
 the loader, with the reader and with the specification.  Relative time ranges with an explicit p1_t0; open() called again on
 a used loader (same log / another log).
+Parts of an across-types result replaced (gen_part_history, part_sweep): a read whose result applies across its types (a
+maximum of either sign, time alignment), reads of strict subsets of those types (each single type in turn, each pair, ...)
+with other arguments, then the first read again; every call against the fresh loader and the model.
 Argument objects used again by the caller (judge_shared_session): the message_types / time_range / source_ids /
 aligned_message_types objects of a call are built once and passed to 2-4 reads on two logs with different t0 - on two loaders
 that are alive at the same time, and on one loader after open() of the other log; every read must equal the fresh-loader
@@ -583,6 +586,95 @@ def sweep_call(rng, spec):
     return c
 
 
+def strict_subsets(types):
+    """Every non-empty strict subset of `types`: each single type in turn, each pair, ..."""
+    types = tuple(types)
+    return [s for k in range(1, len(types)) for s in itertools.combinations(types, k)]
+
+
+# How the arguments of a read over several types make its result one whole (what is stored for a type depends on the other
+# types of the call): a maximum of either sign, and the two time alignment modes.
+ACROSS_KINDS = ('first-n', 'last-n', 'drop', 'insert')
+
+
+def across_call(base, types, kind, n):
+    c = dict(base, types=tuple(types), ic=False, inorder=False)
+    if kind in ('first-n', 'last-n'):
+        c['max'] = n if kind == 'first-n' else -n
+    else:
+        c['align'] = 1 if kind == 'drop' else 2
+    return c
+
+
+PART_VARIANTS = ('same-arguments', 'plain', 'one-argument-changed')
+
+
+def part_call(rng, a, sub, variant, spec, nan_p1, avail=None):
+    """A read of a part `sub` of the types of the across-types read `a`, with arguments other than `a`'s (the set of types is one
+    of them): `a`'s other arguments unchanged, no maximum / alignment at all, or one more argument drawn anew."""
+    b = dict(a, types=tuple(sub), tform='enum')
+    if variant == 'plain':
+        b['max'], b['align'], b['aligned'] = None, 0, None
+    elif variant == 'one-argument-changed':
+        fresh = gen_call(rng, spec, nan_p1, avail)
+        k = rng.choice(['tr', 'src', 'max', 'numpy', 'keep', 'ridx', 'rp1', 'align', 'max', 'tr'])
+        b[k] = fresh[k]
+        if k == 'align':
+            b['aligned'] = fresh['aligned']
+    b['ic'], b['inorder'], b['reopen'] = False, False, None
+    return b
+
+
+def gen_part_history(rng, spec, nan_p1, length, avail=None):
+    """A read whose result applies across its (two or more) types, then reads of strict subsets of those types with other
+    arguments (each replaces the cache entries of its types only), then the first read again: it must be read again as a
+    whole, whichever of its entries were replaced.  None when the log has fewer than two types."""
+    present = sorted(set(s[0] for s in spec if s[0] != Z))
+    if len(present) < 2 or length < 3:
+        return None
+    base = gen_call(rng, spec, nan_p1, avail)
+    base['align'], base['aligned'], base['max'], base['rsys'] = 0, None, None, False
+    if rng.random() < 0.7:
+        base['rp1'] = False
+    q = rng.random()
+    if q < 0.15:
+        types = tuple(present)
+    else:
+        types = tuple(sorted(rng.sample(present, rng.choice([k for k in (2, 2, 3, 3, 4) if k <= len(present)]))))
+    kinds = ACROSS_KINDS[:2] if nan_p1 else ACROSS_KINDS
+    per_type = max(1, len([s for s in spec if s[0] in types]) // len(types))
+    a = across_call(base, types, rng.choice(kinds), rng.choice([1, 2, 3, per_type, per_type + 1, 2 * per_type]))
+    if rng.random() < 0.25:
+        a['tform'] = rng.choice(['set', 'tuple', 'int', 'class', 'enum'])
+    subs = strict_subsets(types)
+    if rng.random() < 0.08:
+        a['types'], a['tform'] = None, 'enum'       # every registered type: any explicit list of types is a part of it
+        subs = subs + [types]
+    h = [a]
+    for _ in range(length - 2):
+        h.append(part_call(rng, a, rng.choice(subs), rng.choice(PART_VARIANTS), spec, nan_p1, avail))
+    h.append(dict(a))
+    return h
+
+
+def part_sweep(rng, spec, nan_p1, type_sets, full):
+    """Over a fixed log: for every set of types, every strict subset of it (each single type in turn, each pair, ...) is read
+    between two across-types reads of the whole set - for every kind of across-types result, with every variant of the middle
+    read (`full`) or one variant drawn per kind."""
+    out = []
+    for types in type_sets:
+        n_all = len([s for s in spec if s[0] in types])
+        for sub in strict_subsets(types):
+            kinds = ACROSS_KINDS[:2] if nan_p1 else ACROSS_KINDS
+            combos = [(k, v) for k in kinds for v in PART_VARIANTS] if full else [(k, rng.choice(PART_VARIANTS)) for k in kinds]
+            for kind, variant in combos:
+                a = across_call(DEFAULT_CALL, types, kind, rng.choice([2, 3, max(1, n_all // 2)]))
+                if rng.random() < 0.3:
+                    a['numpy'], a['keep'] = True, rng.random() < 0.5
+                out.append([a, part_call(rng, a, sub, variant, spec, nan_p1), dict(a)])
+    return out
+
+
 def gen_history(rng, spec, nan_p1, length, avail=None):
     multi = len(set(s[2] for s in spec)) > 1
     probe = any(s[0] == Z for s in spec)
@@ -616,6 +708,9 @@ def gen_history(rng, spec, nan_p1, length, avail=None):
         if rng.random() < 0.3:
             warm['max'] = None
         h = [warm, c, dict(c)]
+    elif length >= 3 and 0.44 < r0 <= 0.55 and len(set(s[0] for s in spec if s[0] != Z)) >= 2:
+        # an across-types read, reads of strict subsets of its types with other arguments, the across-types read again
+        h = gen_part_history(rng, spec, nan_p1, length, avail)
     elif multi and r0 < 0.28:
         h = [sweep_call(rng, spec)]
     else:
@@ -1053,6 +1148,16 @@ def state_outside_cache_culprit(env, hist):
     return len(out) == 2 and out[0] != out[1]
 
 
+def is_part_history(F, hist):
+    """read(a) ; read(b) ; read(a) where a's result applies across its types (a maximum / time alignment) and b reads a strict
+    subset of a's types (or several such reads)."""
+    a, mid, c = hist[0], hist[1:-1], hist[-1]
+    if len(hist) < 3 or call_key(F, a) != call_key(F, c) or a['ic'] or a['inorder'] or (a['max'] is None and a['align'] == 0):
+        return False
+    whole = set(a['types']) if a['types'] is not None else set(int(t) for t in F['M'].message_type_to_class.keys())
+    return all(b['types'] is not None and set(b['types']) < whole for b in mid)
+
+
 def transparency_signature(env, hist):
     if hist[-1]['rsys'] and not any(c.get('reopen') for c in hist):
         out, _ = env.run_history(hist)
@@ -1079,6 +1184,8 @@ def transparency_signature(env, hist):
                 env.fresh(hist[-2]).startswith('E:'):
             return 'C12/call-that-raised-is-answered-when-repeated'
         return 'C12/call-that-raises-on-a-fresh-loader-is-answered-after-earlier-reads'
+    if is_part_history(env.F, hist):
+        return 'C12/across-types-result-served-again-after-a-read-replaced-part-of-it'
     if len(hist) != 2:
         return 'C12/cache-not-transparent:history-of-%d' % len(hist)
     c0, c1 = hist
@@ -1693,6 +1800,11 @@ def run(ctx, nlogs, per_log, maxlen, fresh_spec=True, shared_per_log=5, details=
     for h in corpus:
         one_history(ctx, F, env0, h, reg, drops, lines, pending)
         ctx.count('corpus_histories')
+    # an across-types read / a read of a part of its types with other arguments / the across-types read again: on the corpus
+    # log, every strict subset of four sets of types
+    for h in part_sweep(rng, corpus_spec, False, [(P, G, A), (P, G, A, E), (P, A), (G, E)], ctx.thorough):
+        one_history(ctx, F, env0, h, reg, drops, lines, pending)
+        ctx.count('part_of_an_across_types_result_replaced_histories')
     # argument objects used again by the caller: the corpus pair (t0 = 1.0 s / 3.0 s) first
     for tr in [(1.0, 2.5, False), (0.5, None, False), (None, 1.5, False), (1.0, 2.5, False, 4), (2.0, 4.5, True), None]:
         for pat in SHARED_PATTERNS[:6]:
@@ -1736,6 +1848,7 @@ def run(ctx, nlogs, per_log, maxlen, fresh_spec=True, shared_per_log=5, details=
             if any(c.get('reopen') == 'other' for c in hist) and (env.untimed_p1 or env.alt.untimed_p1):
                 # time alignment is compared on logs without untimed P1-type messages only: none on either log of the pair
                 hist = [dict(c, align=0, aligned=None) for c in hist]
+            ctx.count('part_of_an_across_types_result_replaced_histories', int(is_part_history(F, hist)))
             one_history(ctx, F, env, hist, reg, drops, lines, pending)
             if ctx.elapsed() > (900 if ctx.thorough else 70):
                 break
@@ -1843,7 +1956,13 @@ def check(ctx):
                        'same log, or the other of a pair of logs) before 5% of the later calls: the call must return what a loader '
                        'freshly opened on that log returns (the model is compared from the last open() on). A call is made after a read '
                        'that cached all its types under other arguments and then repeated (on logs without P1 time, where a time range '
-                       'raises, in 45% of the histories). Argument objects used again: per log 5 (thorough 10) sessions, and 36 on a fixed pair of '
+                       'raises, in 45% of the histories). Results that apply across types (max_messages of either sign, time_align '
+                       'DROP / INSERT) and reads of a part of their types: read(T, X), then 1-2 reads of strict subsets of T (each '
+                       'single type, each pair, ...) with other arguments (the same X over the subset / no maximum or alignment / one '
+                       'more argument drawn anew), then read(T, X) again - on the corpus log for every strict subset of 4 sets of '
+                       '2-4 types x the 4 kinds of X (thorough: x the 3 kinds of middle read), and as 11% of the generated histories of '
+                       'length >= 3 (T also = all registered types); every call of the history is compared with a fresh loader. '
+                       'Argument objects used again: per log 5 (thorough 10) sessions, and 36 on a fixed pair of '
                        'logs, in which one TimeRange object (relative without t0 / relative with explicit t0 / absolute / none), one '
                        'message_types object (list of enums, set, classes, integers, tuple, array), one source_ids object (list / set '
                        '/ tuple) and one aligned_message_types list are passed to 2-4 reads of two logs with different first P1 times '
